@@ -39,6 +39,8 @@ def make_frame(cols, rows=None, index=None):
             d[name] = np.array([float("nan") if v == "nan" else float(v) for v in vs], dtype=np.float64)
         elif kind == "int":
             d[name] = np.array(vs, dtype=np.int64)
+        elif kind.startswith("int:"):
+            d[name] = np.array(vs, dtype=np.dtype(kind[4:]))
         elif kind == "bool":
             d[name] = np.array(vs, dtype=bool)
         elif kind == "ts":
@@ -86,10 +88,17 @@ class C14(Scenario):
         cols["f4"] = ("float", ["nan"] * n if d.chance(0.6) else [enc_val(d.pick([float("nan"), float("nan"), 1.5])) for _ in range(n)])
         cols["i1"] = ("int", [d.randint(-3, 12) for _ in range(n)])
         cols["i2"] = ("int", [d.pick([0, 1, 1, 2, 5, 100]) for _ in range(n)])
+        # an integer column of another width (a uint8 image channel, an int16 ADC count) and a column whose name stands for a
+        # float in one dataset and for an integer in the next one the same process looks at
+        cols["i3"] = ("int:" + d.pick(["int8", "int16", "int32", "uint8", "uint16", "uint32", "uint64"]), [d.randint(0, 9) for _ in range(n)])
+        if d.chance(0.5):
+            cols["v1"] = ("float", [enc_val(d.pick([0.5, 1.0, 2.5, 3.0, float("nan")])) for _ in range(n)])
+        else:
+            cols["v1"] = ("int", [d.randint(0, 6) for _ in range(n)])
         cols["b1"] = ("bool", [d.chance(0.6) for _ in range(n)])
         cols["t1"] = ("ts", [T0 + d.randint(0, 400) * 86400 + d.pick([0, 3600, 86399]) for _ in range(n)])
         t = rng.fork("tree")
-        names = ["f1", "f2", "i1", "i2", "b1", "f3"] + (["f4"] if t.chance(0.25) else [])
+        names = ["f1", "f2", "i1", "i2", "b1", "f3", "i3", "v1"] + (["f4"] if t.chance(0.25) else [])
         use_time = t.chance(0.3)
         feats = []
         for _ in range(t.randint(1, 4)):
@@ -319,7 +328,7 @@ class C14(Scenario):
                     rd = _norm(observe.observe(rh.value))
                     w.bump("probe_rowwise_direct_fill")
                     if rd != whole_docs[name]:
-                        scale = max([1.0] + [abs(float(v)) for kind, vals in cols.values() if kind in ("float", "int") for v in vals
+                        scale = max([1.0] + [abs(float(v)) for kind, vals in cols.values() if kind in ("float", "int") or kind.startswith("int:") for v in vals
                                              if v != "nan" and abs(float(v)) != float("inf")])
                         d = observe.doc_diff(whole_docs[name], rd, observe.Tol(n=16 * n, scale=scale, sums=True))
                         if d is not None and self._near_edge(name, bs_r, vd_r, df):
@@ -394,7 +403,7 @@ class C14(Scenario):
                 if sorted(rows) != list(range(n)):
                     continue  # the minimiser removed a chunk: the reduction no longer covers the frame
                 inexact = any(k in repr(frozen[1]) for k in ("'sum'", "'average'", "'deviate'"))
-                scale = max([1.0] + [abs(float(v)) for kind, vals in cols.values() if kind in ("float", "int") for v in vals
+                scale = max([1.0] + [abs(float(v)) for kind, vals in cols.values() if kind in ("float", "int") or kind.startswith("int:") for v in vals
                                      if v != "nan" and abs(float(v)) != float("inf")])
                 self._cmp(whole_docs, self._docs(red), "partition-invariance", si, observe.Tol(n=16 * n, scale=scale, sums=True) if inexact else None)
             w.record_step(st)
